@@ -53,3 +53,11 @@ Definition same_leaves (a b : table) : bool :=
 
 Definition tables_agree (o : four table) : bool :=
   same_leaves (q_dotted o) (q_dcls o) && table_eqb (q_dcls o) (q_cls o) && table_eqb (q_cls o) (q_inner o).
+
+(* a declaration that raises in one style only is a disagreement; raising in all four is not *)
+Definition tables_agree_opt (o : four (option table)) : bool :=
+  match q_dotted o, q_dcls o, q_cls o, q_inner o with
+  | Some a, Some b, Some c, Some d => tables_agree {| q_dotted := a; q_dcls := b; q_cls := c; q_inner := d |}
+  | None, None, None, None => true
+  | _, _, _, _ => false
+  end.
